@@ -1,80 +1,2 @@
-(** C01 - the round trip for a list compared position by position, given the
-    round trip for its paired children. *)
-From Coq Require Import List ZArith NArith Bool Arith Lia Permutation.
-Import ListNotations.
-From DD Require Import Base.PyStr Base.Value Base.ValueFacts Path.PathModel Diff.Tree Diff.DiffModel
-  Diff.DiffFacts Diff.DiffFaithful Delta.DeltaModel Delta.DeltaFacts Delta.DeltaLocal Delta.DeltaEntries
-  Delta.DeltaStruct Delta.DeltaRun Delta.DeltaGuard Delta.DeltaGood Delta.DeltaCompose Delta.DeltaListNode.
-
-Lemma repl_app_l {A} i (v : A) l1 l2 : i < length l1 -> repl i v (l1 ++ l2) = repl i v l1 ++ l2.
-Proof.
-  intros H. unfold repl. rewrite firstn_app, skipn_app.
-  replace (i - length l1) with 0 by lia. replace (S i - length l1) with 0 by lia.
-  cbn [firstn skipn]. rewrite app_nil_r, <- app_assoc. reflexivity.
-Qed.
-
-Lemma all2_nth {A} (f : A -> A -> bool) (b ys : list A) :
-  length b = length ys ->
-  (forall i x y, nth_error b i = Some x -> nth_error ys i = Some y -> f x y = true) -> all2 f b ys = true.
-Proof.
-  revert ys; induction b as [|x b IH]; intros [|y ys] L H; try discriminate L; [reflexivity|].
-  cbn. rewrite (H 0 x y eq_refl eq_refl). cbn. apply IH; [cbn in L; lia|].
-  intros i x0 y0 Hx Hy. apply (H (S i)); assumption.
-Qed.
-
-(* own_run from the subsequence of own items *)
-Lemma own_run_filter (own : item -> bool) l :
-  own_run (list item) (fun q x q' => q = x :: q') own (filter own l) l [].
-Proof.
-  induction l as [|x l IH]; cbn; [constructor|].
-  destruct (own x) eqn:O.
-  - eapply own_run_own; [exact O|reflexivity|exact IH].
-  - apply own_run_child; [exact O|exact IH].
-Qed.
-
-Section OwnSteps.
-Variable conv : ty -> value -> option value.
-Variable bidir : bool.
-Notation istep := (istep conv bidir).
-
-Lemma own_rem_step b0 v po e : py_eqv v v = true ->
-  istep (mkSt (VList (b0 ++ [v])) po e) (IRem [PKey (ik (length b0))] v) = mkSt (VList b0) po e.
-Proof.
-  intros R. cbn [istep]. unfold remove_one. cbn [removelast last key_atom resolve root].
-  rewrite get_item_list_ik. rewrite nth_error_app2 by lia. rewrite Nat.sub_diag. cbn [nth_error].
-  rewrite R. cbn [negb].
-  unfold del_elem. cbn [resolve root is_tuple untuple upd post errs].
-  rewrite del_item_list_ik by (rewrite app_length; cbn; lia).
-  rewrite firstn_app, Nat.sub_diag, firstn_all. cbn [firstn]. rewrite app_nil_r.
-  rewrite skipn_all2 by (rewrite app_length; cbn; lia). rewrite app_nil_r.
-  unfold verify. destruct bidir; [rewrite R|]; reflexivity.
-Qed.
-
-Lemma own_add_step b v po e :
-  istep (mkSt (VList b) po e) (IAdd true [PKey (ik (length b))] (Some v)) = mkSt (VList (b ++ [v])) po e.
-Proof.
-  cbn [istep]. unfold add_one. cbn [removelast last key_atom resolve root int_of_atom ik].
-  rewrite Z.ltb_irrefl. cbn [andb].
-  unfold set_new_value. cbn [removelast last key_atom resolve root is_tuple untuple upd post errs].
-  change (AInt (Z.of_nat (length b))) with (ik (length b)). rewrite set_item_list_append. reflexivity.
-Qed.
-End OwnSteps.
-
-(* ---- facts about the trailing items ---- *)
-Lemma combine_seq_snoc {A} i (t : list A) v :
-  combine (seq i (length (t ++ [v]))) (t ++ [v]) = combine (seq i (length t)) t ++ [(i + length t, v)].
-Proof.
-  revert i; induction t as [|x t IH]; intros i; cbn.
-  - rewrite Nat.add_0_r. reflexivity.
-  - rewrite IH. cbn. rewrite Nat.add_succ_r. reflexivity.
-Qed.
-
-Lemma tail_rem_snoc i t v : tail_rem i (t ++ [v]) = tail_rem i t ++ [IRem [PKey (ik (i + length t))] v].
-Proof. unfold tail_rem. rewrite combine_seq_snoc, map_app. reflexivity. Qed.
-Lemma tail_add_cons i y t : tail_add i (y :: t) = IAdd true [PKey (ik i)] (Some y) :: tail_add (S i) t.
-Proof. reflexivity. Qed.
-
-Lemma tail_rem_In i t x : In x (tail_rem i t) -> exists j v, x = IRem [PKey (ik j)] v /\ i <= j < i + length t /\ nth_error t (j - i) = Some v.
-Proof.
-  unfold tail_rem. intros H. apply in_map_iff in H as ([j v] & <- & Hj). apply in_combine_seq in Hj as [H1 H2].
-  exists j, v. split; [reflexivity|]. split; [exact H1|exact H2]. Show. Unshelve. Show.
+From DD Require Import Delta.DeltaListNode Delta.DeltaCompose.
+Check D_pref. Check restrictP_child_same. Check child_item_paths. Check DL_struct.
